@@ -61,7 +61,8 @@ def expected(c):
         # shifted so that the window, or an earlier-starting lax interval, begins at 0; span [0, b-a],
         # widened just enough to contain an overhanging (lax) interval
         d = lo
-        kept = [[e[0] - d, e[1] - d, e[2]] for e in kept]
+        # a piece whose rebased ends are the same float (a cut within a few ulps of the window edge) cannot be an interval
+        kept = [[e[0] - d, e[1] - d, e[2]] for e in kept if e[0] - d < e[1] - d]
         return ("ok", kept, 0.0, max([b - a] + [e[1] for e in kept[-1:]]))
     return ("ok", kept, lo, hi)
 
@@ -151,6 +152,10 @@ def corpus():
     yield {"op": "icrop", "tier": t, "a": 2.25, "b": 2.75, "mode": "truncated", "rebase": True, "grid": True}
     yield {"op": "icrop", "tier": dict(t, es=[]), "a": 1.0, "b": 2.0, "mode": "lax", "rebase": True, "grid": True}
     yield {"op": "icrop", "tier": t, "a": 1.5, "b": 3.5, "mode": "lax", "rebase": True, "grid": True}
+    # A23 (fixed): a crop boundary one ulp beside an interval boundary; the cut-off piece vanishes when rebased
+    t2 = {"k": "I", "name": "T", "es": [[1.805, 5.39, "a"]], "lo": 0.0, "hi": 10.0}
+    yield {"op": "icrop", "tier": t2, "a": 0.362, "b": 1.8050000000000002, "mode": "truncated", "rebase": True, "grid": False}
+    yield {"op": "icrop", "tier": t2, "a": 5.389999999999999, "b": 7.0, "mode": "truncated", "rebase": True, "grid": False}
 
 
 def gen(rnd, tier):
